@@ -93,6 +93,17 @@ ChainClause(st, j) ==
           ELSE IF ErrMatches(Ms, d, st.obs.kind, IF j = 1 THEN st.call ELSE E[j-1].next.call)
                THEN "" ELSE "ends_correctly." \o d.kind \o ".got_" \o st.obs.kind
 
+(* position of the first chain step ChainClause rejects: the index of the    *)
+(* entry it expected there (Len(E) + 1: the end of the chain), 0 if none     *)
+RECURSIVE ChainFailPos(_, _)
+ChainFailPos(st, j) ==
+  LET E == st.obs.entered IN
+  IF j <= Len(E) THEN
+     LET d == ChainExpect(st, j) IN
+     IF j > 1 /\ ~E[j-1].next.has THEN j
+     ELSE IF d.kind = "run" /\ E[j].m = d.m THEN ChainFailPos(st, j + 1) ELSE j
+  ELSE IF ChainClause(st, j) = "" THEN 0 ELSE j
+
 VisitedOnce(st) ==
   LET E == st.obs.entered IN
   \* a recurse inside the chain starts a fresh call: methods may legitimately run again
@@ -104,6 +115,12 @@ VisitedOnce(st) ==
 C07Clause(st) ==
   IF ~VisitedOnce(st) THEN "visited_once" ELSE ChainClause(st, 1)
 
+(* C07 over value worlds (Dependent / Literal annotations): the same clause, applicability and order  *)
+(* being value-level (Holds, TypeLE).  C07VFlag names the known deviation the first rejected chain     *)
+(* step falls under, if any: 2 = an earlier call_next(other values) came from a method that is a       *)
+(* candidate for the new argument classes but not applicable to the values; 1 = the call being         *)
+(* resolved at that step has the rank artefact signature (KF_pull_rank).                               *)
+C07VClause(st) == LET c == C07Clause(st) IN IF c = "" THEN "" ELSE "value_chain." \o c
 (***************************************************************************)
 (* C06: step 1 is the base context; every later step is the same call in   *)
 (* another context (iteration orders forced through the order hook,        *)
@@ -214,6 +231,7 @@ StepClause(st) ==
       c19 == IF "C19" \in Props THEN C19Clause(st) ELSE ""
       c14 == IF "C14" \in Props THEN C14Clause(st) ELSE ""
       c17 == IF "C17" \in Props THEN C17Clause(st) ELSE ""
+      c7v == IF "C07V" \in Props THEN C07VClause(st) ELSE ""
       c10 == IF "C10" \in Props THEN C10Clause(st)
              ELSE IF "C10G" \in Props THEN
                   (IF \E q \in DOMAIN st.obs.predlog : ~Sat(W, st.obs.predlog[q].t.bound, st.obs.predlog[q].a.c)
@@ -225,6 +243,7 @@ StepClause(st) ==
      ELSE IF c14 # "" THEN "C14:" \o c14
      ELSE IF c10 # "" THEN "C10:" \o c10
      ELSE IF c17 # "" THEN "C17:" \o c17
+     ELSE IF c7v # "" THEN "C07:" \o c7v
      ELSE IF c1 # "" THEN "C01:" \o c1
      ELSE IF c2 # "" THEN "C02:" \o c2
      ELSE IF c7 # "" THEN "C07:" \o c7
@@ -262,6 +281,33 @@ ImplConsistent(st) ==
            o.kind # "run" /\ KindMatches(Ms, o, st.obs.kind, E[Len(E)].next.call)
   /\ (Len(E) > 0 /\ ~E[Len(E)].next.has) => st.obs.kind = "run"
 
+(* the same for value worlds (Dependent.tla): rank wrappers, strategies, fall-through *)
+ImplValueConsistent(st) ==
+  LET E == st.obs.entered  Ms == MOf(st) IN
+  /\ \E r \in RankLists(W, Ms, st.call) :
+        LET o == ImplValueOutcomeOf(Ms, r, st.call) IN
+        IF Len(E) = 0 THEN o.kind # "run" /\ KindMatches(Ms, o, st.obs.kind, st.call)
+        ELSE o.kind = "run" /\ o.m = E[1].m
+  /\ \A j \in 2..Len(E) :
+        E[j-1].next.has /\
+        \E r \in RankLists(W, Ms, E[j-1].next.call) :
+           LET o == ImplValueNextOf(Ms, r, E[j-1].m, E[j-1].next.call) IN o.kind = "run" /\ o.m = E[j].m
+  /\ (Len(E) > 0 /\ E[Len(E)].next.has) =>
+        \E r \in RankLists(W, Ms, E[Len(E)].next.call) :
+           LET o == ImplValueNextOf(Ms, r, E[Len(E)].m, E[Len(E)].next.call) IN
+           o.kind # "run" /\ KindMatches(Ms, o, st.obs.kind, E[Len(E)].next.call)
+  /\ (Len(E) > 0 /\ ~E[Len(E)].next.has) => st.obs.kind = "run"
+
+C07VFlag(st) ==
+  LET E == st.obs.entered  Ms == MOf(st)
+      p == IF ~VisitedOnce(st) THEN Len(E) + 1 ELSE ChainFailPos(st, 1)
+      callp == IF p <= 1 THEN st.call ELSE E[p-1].next.call
+  IN IF p = 0 \/ ~ImplValueConsistent(st) THEN "0"
+     ELSE IF \E j \in 1..(p-1) : j <= Len(E) /\ E[j].next.has /\ E[j].next.call # E[j].call
+                                  /\ KF_next_other_value(W, Ms, ById(Ms, E[j].m), E[j].next.call) THEN "2"
+     ELSE IF KF_pull_rank(W, Ms, callp) THEN "1"
+     ELSE "0"
+
 KFStep(st) ==
   LET E == st.obs.entered  Ms == MOf(st) IN
   \/ KF_levels(W, Ms, st.call)
@@ -288,10 +334,12 @@ Consume ==
          \* outside class-only worlds the signature alone decides (no Impl prediction available);
          \* it needs at least two supplied positions there (the cross-position form of the artefact)
          \* the level artefact is repaired; the only signature left is the rank artefact of dependent methods (C10)
-         ks == "C10" \in Props /\ KF_pull_rank(W, MOf(st), st.call)
+         \* ... and only when the code did exactly what the Impl layer of value dispatch predicts
+         ks == "C10" \in Props /\ KF_pull_rank(W, MOf(st), st.call) /\ (c = "" \/ ImplValueConsistent(st))
      IN
        /\ bad' = IF c # ""
-                 THEN bad \o (IF bad = "" THEN "" ELSE ",") \o c \o "@" \o ToString(l) \o "#" \o Flag(ks /\ ic)
+                 THEN bad \o (IF bad = "" THEN "" ELSE ",") \o c \o "@" \o ToString(l) \o "#"
+                          \o (IF "C07V" \in Props THEN C07VFlag(st) ELSE Flag(ks /\ ic))
                  ELSE bad
        /\ drift' = (drift \/ ~ic)
        /\ kf' = (kf \/ ks)
